@@ -159,7 +159,7 @@ contract(FB, "RuleDBBase._clean_labels", props=["C04", "C14"], aliases=dict(AL, 
          requires=["len(ends) == len(children_of(rule))", "wf(classdb_of(self))", "wf(searcher_of(self).classqueue)",
                    _LAB_OK],
          call_models={}, locals={"cleaned_ends": List(Int)},
-         may_raise=["StrategyDoesNotApply"],
+         may_raise=["StrategyDoesNotApply", "UserCodeError"],
          ensures=["forall(lambda i, j: implies(0 <= i and i < j and j < len(result), result[i] <= result[j]))",
                   "forall(lambda i: implies(0 <= i and i < len(ends) and " + _KEPT.format(i="i") + ", ends[i] in result))",
                   "forall(lambda j: implies(0 <= j and j < len(result), exists(lambda i: 0 <= i and i < len(ends) and "
@@ -199,7 +199,7 @@ _ADD_REQ = ["len(ends) == len(children_of(rule))", "wf(classdb_of(self))", "wf(s
 contract(FB, "RuleDBBase.add", props=["C05", "C14", "C04"],
          params={"start": Int, "ends": Seq(Int), "rule": Obj("Rule")},
          isinstance_map={"VerificationRule": lambda ex, v, st: z3.Function("is_verif_rule", z3.IntSort(), z3.BoolSort())(v.z)},
-         requires=_ADD_REQ, may_raise=["StrategyDoesNotApply"],
+         requires=_ADD_REQ, may_raise=["StrategyDoesNotApply", "UserCodeError"],
          variants=[
              {"name": "default", "params": {"self": Obj("RuleDB")}, "aliases": dict(AL, KT=RuleKey, ClassKey=class_db.ClassKey),
               "ensures": _add_posts(lambda k: f"({k} in self._rule_to_strategy)", lambda k: f"({k} in self._eqv_rule_to_strategy)",
